@@ -133,7 +133,7 @@ func (p *inputPool) history(r *prng.R) []harness.Op {
 			// lexer-only: only lexer operations
 			switch r.Intn(4) {
 			case 0:
-				ops = append(ops, harness.Op{Op: "lexnew", In: &harness.Input{Text: p.someText(r)}})
+				ops = append(ops, harness.Op{Op: "lexnew", In: &harness.Input{Text: p.someText(r), FromFile: r.Chance(1, 4)}})
 				lexLive = true
 			case 1:
 				if lexLive {
@@ -164,7 +164,9 @@ func (p *inputPool) history(r *prng.R) []harness.Op {
 		}
 		switch x := r.Intn(100); {
 		case x < 22:
-			ops = append(ops, harness.Op{Op: "parse", In: toInput(prng.Pick(r, p.valid), useTok, "valid")})
+			in := toInput(prng.Pick(r, p.valid), useTok, "valid")
+			in.FromFile = !useTok && r.Chance(1, 5)
+			ops = append(ops, harness.Op{Op: "parse", In: in})
 		case x < 42:
 			ops = append(ops, harness.Op{Op: "parse", In: p.badInput(r, useTok)})
 		case x < 52:
@@ -192,7 +194,7 @@ func (p *inputPool) history(r *prng.R) []harness.Op {
 			ops = append(ops, harness.Op{Op: "pctx", Ctx: r.Intn(4)})
 		case x < 88:
 			if p.lexOK {
-				ops = append(ops, harness.Op{Op: "lexnew", In: &harness.Input{Text: p.someText(r)}})
+				ops = append(ops, harness.Op{Op: "lexnew", In: &harness.Input{Text: p.someText(r), FromFile: r.Chance(1, 4)}})
 				lexLive = true
 				ops = append(ops, harness.Op{Op: "lexscan", N: r.Intn(12)})
 				ops = append(ops, harness.Op{Op: "lexreset"})
